@@ -52,10 +52,26 @@ def possible_values(t, st, om):
             return {r.v}
         return set(r.table.values())
     if isinstance(t, App) and t.op == "ite":
+        d = None
+        try:
+            d = om.ev.decide(st, t.args[0])
+        except Exception:
+            d = None
+        if d is True:
+            return possible_values(t.args[1], st, om)
+        if d is False:
+            return possible_values(t.args[2], st, om)
         a = possible_values(t.args[1], st, om)
         b = possible_values(t.args[2], st, om)
         if isinstance(a, set) and isinstance(b, set):
             return a | b
+        # a number on one side, constants that are not numbers (None) on the other: both can occur
+        for x, y in ((a, b), (b, a)):
+            if (x == ("number",) or (isinstance(x, tuple) and x and x[0] == "mixed")) and (isinstance(y, set) or (isinstance(y, tuple) and y and y[0] == "mixed")):
+                cx = set(x[1]) if x[0] == "mixed" else set()
+                cy = set(y) if isinstance(y, set) else set(y[1])
+                if x[0] == "mixed" or not all(is_num(v) for v in cy):
+                    return ("mixed", frozenset(cx | cy))
         if a == ("number",) and b == ("number",):
             return ("number",)
         if a == ("number",) and isinstance(b, set) and all(is_num(x) for x in b):
@@ -193,6 +209,16 @@ def check_c10(ctx, led, v):
                 vals = possible_values(xv, st2, om)
                 if vals is None:
                     raise AnalysisError("C10.shape", "cannot enumerate the possible values of %s: %r" % (k, xv), f.node, om.module)
+                if isinstance(vals, tuple) and vals and vals[0] == "mixed":
+                    rn = resolve(schema, node)
+                    badc = sorted((x for x in vals[1] if not admits(schema, node, _json(x))), key=str)
+                    if badc:
+                        viol("C10.validate", "%s = %r" % (ck, badc[0]), where, "%s can be %r (besides a number), which %s does not admit" % (k, _json(badc[0]), sname))
+                    elif rn.get("type") != "number":
+                        viol("C10.validate", ck + " type", where, "%s is emitted as a number, %s expects %s" % (k, sname, rn.get("type")))
+                    else:
+                        led.ok("C10.validate", ck + " " + sname + " " + label, where, "number or admitted constants")
+                    continue
                 if vals == ("string",):
                     rn = resolve(schema, node)
                     if rn.get("type") == "number":
